@@ -233,8 +233,12 @@ var (
 // entriesFor returns the specific entry point and, where it exists, the general one that must agree.
 func entriesFor(start string) (entryFn, *entryFn) {
 	switch {
-	case strings.HasPrefix(start, "E") && len(start) <= 3:
+	case (strings.HasPrefix(start, "E") && len(start) <= 3) || strings.HasPrefix(start, "FE_"):
 		return epExpr, nil
+	case strings.HasPrefix(start, "FD_"):
+		return epDDL, &epStmt
+	case strings.HasPrefix(start, "FM_"):
+		return epDML, &epStmt
 	case start == "Type":
 		return epType, nil
 	case start == "QueryStatement" || strings.HasPrefix(start, "QS_"):
